@@ -3,6 +3,7 @@
 -/
 import GeoModel.Parse
 import GeoModel.LineIntersection
+import GeoModel.Distance
 
 namespace Geo.Ops.C11
 open Geo Geo.P
@@ -81,7 +82,18 @@ def propOne (p1 p2 q1 q2 : Pt) (res m : Option LI) (tolOk : Pt → Pt → Bool) 
     | some (.single x true) =>
       if (match m with | some (.single _ true) => false | _ => true) then "FAIL:proper-flag-wrong"
       else if !(inBox x p1 p2 && inBox x q1 q2) then
-        (if isEndpoint x then "FAIL:proper-outside-bbox-endpoint-fallback" else "FAIL:proper-outside-bbox")
+        -- `nearest_endpoint` fallback: the end point (of either segment) nearest to the *other* segment.
+        -- The known class K11 is exactly "the fallback returned a nearest end point" (which may sit an ulp
+        -- outside the other bounding box); an end point that is not (within 2^-30 relative) nearest is a
+        -- different failure.
+        (if isEndpoint x then
+          let d (e : Pt) (onP : Bool) : Rat := if onP then psd2 e q1 q2 else psd2 e p1 p2
+          let dmin := rmin (rmin (d p1 true) (d p2 true)) (rmin (d q1 false) (d q2 false))
+          let dx := rmin (if x == p1 || x == p2 then psd2 x q1 q2 else dmin + dmin + 1)
+                         (if x == q1 || x == q2 then psd2 x p1 p2 else dmin + dmin + 1)
+          if dx ≤ dmin + dmin / 1073741824 then "FAIL:proper-outside-bbox-endpoint-fallback"
+          else "FAIL:proper-outside-bbox-endpoint-not-nearest"
+         else "FAIL:proper-outside-bbox")
       else match m with
         | some (.single e true) => if tolOk x e then "PASS" else "FAIL:proper-point-inaccurate"
         | _ => "PASS"
